@@ -95,7 +95,7 @@
 
             void append(astnode node)
             {
-                children.push_back(node);
+                children.push_back(std::move(node));
             }
             void append_children(const astnode& other)
             { 
